@@ -465,6 +465,10 @@ def _run(kind, tier, seed, caps, script_fn, mc_cfgs, mc_module):
                                "finding": rj}, f, indent=1)
                 out["findings"].append({"what": "capacity %d (%s header) line %d: %s %s" % (cap, "development" if dev else "single", rj["line"], rj["why"], rj["detail"][:700]),
                                         "signature": "%s cap%d %s" % (kind, cap, rj["why"]), "replay": d})
+    cdir = os.path.join(vlib.WORK, "comp")
+    entries = sorted(((os.path.getmtime(os.path.join(cdir, e)), e) for e in os.listdir(cdir)), reverse=True)
+    for _, e in entries[9:]:
+        shutil.rmtree(os.path.join(cdir, e), ignore_errors=True)
     out["coverage"] = {"states": states, "transitions": trans,
                        "traces_validated_against_impl": sum(1 for c in per_cap if c["accepted"]),
                        "samples": [{"component_runs": per_cap[:4]}],
